@@ -23,8 +23,13 @@ func orderUnmaskingInputs(e *env, round int) (book, log string) {
 		if i%4 == 0 {
 			amt = 10 + i
 		}
-		fmt.Fprintf(&bk, "%s:\n  calories: %d\n  fat: %d\n  %s: 1\n", names[i], amt, i%3, names[20+i%5])
+		// fat amounts with a third decimal 5: the period sum sits on a rounding boundary, so the order of
+		// float additions (map order) would show in the second decimal
+		fat := []string{"1.115", "2.165", "0.155", "0.105", "1.005", "3.335", "0.445"}[i%7]
+		fmt.Fprintf(&bk, "%s:\n  calories: %d\n  fat: %s\n  %s: 1\n  placeholder: 2\n", names[i], amt, fat, names[20+i%5])
 	}
+	// a recipe without ingredients that other recipes refer to
+	bk.WriteString("placeholder:\n")
 	// a chain of references at the limit (13 references: fails at the default limit whatever the order) or below it
 	chain := 9
 	if round%3 == 0 {
@@ -41,6 +46,9 @@ func orderUnmaskingInputs(e *env, round int) (book, log string) {
 		fmt.Fprintf(&lg, "2021/10/%02d:\n", d)
 		for i := 1; i <= n; i++ {
 			fmt.Fprintf(&lg, "  %s: 1\n", names[i]) // equal quantities: ties in report quantity
+		}
+		for i := 1; i <= n; i += 2 {
+			fmt.Fprintf(&lg, "  %s: 0.5\n", names[i]) // long days (> 16 entries) in which foods repeat
 		}
 		for i := 0; i < 6; i++ {
 			fmt.Fprintf(&lg, "  unknown/%s/%s: 2\n", names[10+i], names[11+i]) // unresolved foods, siblings in the balance tree
